@@ -391,7 +391,7 @@ fn item_list(scs: &[Scenario]) -> Vec<(usize, usize, Option<(IpAddr, usize)>)> {
 pub fn run(ctx: &Ctx) -> i32 {
     let scs = scenarios(ctx.tier);
     let items = item_list(&scs);
-    let (acc, crashes) = procpar::parent(ctx, items.len(), ctx.tier.pick(40.0, 570.0), &[]);
+    let (acc, crashes) = procpar::parent(ctx, items.len(), ctx.tier.pick(90.0, 1800.0), &[]);
     let mut report = Report::new();
     report.level = "fault_enumeration";
     report.evaluations = acc.counters.get("executions").copied().unwrap_or(0);
